@@ -4,6 +4,7 @@ package main
 
 import (
 	"encoding/json"
+	"time"
 
 	"github.com/nsqio/nsq/internal/verif/vx"
 	"github.com/nsqio/nsq/nsqd"
@@ -84,7 +85,7 @@ func connOf(op string) string {
 	switch op {
 	case "fin1", "fin1x2", "req1", "req1d", "touch1", "cls1", "rdy1_2", "disc1":
 		return "c1"
-	case "fin2", "req2", "touch2", "rdy2", "rdy2_2", "disc2":
+	case "fin2", "req2", "req2d", "touch2", "rdy2", "rdy2_2", "disc2", "got2_req2d", "got2_req2", "got2_fin2", "got2_touch2":
 		return "c2"
 	}
 	return ""
@@ -146,7 +147,22 @@ func checkC02(tier string) int {
 			specs = append(specs, nsqd.MicroSpec{State: st, MemQ: 10, Ops: tr})
 		}
 	}
+	// a deferral that has just elapsed: the deferred scan moves the message back to the queue
+	// while the consumer it is handed to answers at once
+	for _, mq := range []int64{10, 0} {
+		for _, op := range []string{"got2_req2d", "got2_req2", "got2_fin2", "got2_touch2"} {
+			specs = append(specs, nsqd.MicroSpec{State: "defexp", MemQ: mq, Unbuf: true, Ops: []string{"scan", op}})
+		}
+	}
 	runMicros(rep, specs, secs, false)
+	// E3: sequential histories (publish paths incl. deferred, two channels, two consumers,
+	// answers by holder and non-holder, timeouts) judged by the same per-delivery monitor
+	hb := 60 * time.Second
+	if tier == "thorough" {
+		hb = 15 * time.Minute
+	}
+	runHistPlans(rep, "C02", tier, "exploration", histPlans("C02", tier), hb)
+	rep.Rule += "; E3: BFS over event histories from pre-subscribed states (two consumers on one channel; one consumer on each of two channels) with the holder/attempts/FIN-final monitor of the reference ledger"
 	return rep.Finish()
 }
 
